@@ -166,6 +166,12 @@ func runModule(t *testing.T, mk func() *adapter, n hx.N) {
 							a.family(t, l[j])
 							c.Op("edit: rule %d of an earlier list changes its strategy/behaviour family: %s", j, a.key(l[j]))
 							sawEdit = true
+						} else if fv := reflect.ValueOf(l[j]).Elem().FieldByName("Threshold"); fv.IsValid() && fv.Kind() == reflect.Float64 && rapid.IntRange(0, 3).Draw(t, "nudgeThreshold") == 0 {
+							// the threshold alone moves by 1 or 10, whatever its magnitude (2000000000 and 2000000010 are different thresholds)
+							d := float64(rapid.SampledFrom([]int{1, 10}).Draw(t, "by"))
+							fv.SetFloat(fv.Float() + d)
+							c.Op("edit: the threshold of rule %d of an earlier list grows by %v to %v", j, d, fv.Float())
+							sawEdit = true
 						} else if len(idx) > 1 && rapid.IntRange(0, 3).Draw(t, "reorder") == 0 {
 							// the same rules in another order, nothing else changed: the latest order is the one reported and consulted
 							j2 := idx[rapid.IntRange(0, len(idx)-1).Draw(t, "swapWith")]
